@@ -206,7 +206,8 @@ def builtin_signature_lemma():
 
 def units():
     from . import c01exec
-    return units_steploop() + units_single_step() + c01exec.units() + [LemmaUnit("lemma:builtin-signatures", builtin_signature_lemma),FunctionUnit(ResolveArgs()), FunctionUnit(ImplementLoops()),
+    from . import c02assign
+    return units_steploop() + units_single_step() + c01exec.units() + c02assign.units() + [LemmaUnit("lemma:builtin-signatures", builtin_signature_lemma),FunctionUnit(ResolveArgs()), FunctionUnit(ImplementLoops()),
                                FunctionUnit(ExecAssignNoSpuriousException())]
 
 
